@@ -73,6 +73,12 @@ func estimateVector(est st.VectorEstimator, x []ad.ConstVector, gamma ad.ConstVe
 		return o
 	}
 	o.params = vecOf(d.GetParameters())
+	if _, isMixture := est.(*ve.MixtureEstimator); isMixture {
+		// the covariance of a mixture component can be close to singular for
+		// any data; densities evaluated through it amplify rounding without
+		// bound and are not compared
+		return o
+	}
 	r := ad.NewFloat64(0)
 	for _, rec := range x {
 		if pv, _ := core.Try(func() { err = d.LogPdf(r, rec) }); pv == nil && err == nil {
@@ -265,7 +271,17 @@ func RunNumeric(c *core.Ctx, checkStationary bool) {
 	c.Logf("sequential: %v %s", seq.params, seq.err)
 	c.Logf("parallel:   %v %s", par.params, par.err)
 	// an optimizer amplifies reduction-order noise: compare loosely
-	compare(c, what, cfg, seq, par, 1e-6)
+	// Newton converges quadratically, so the likelihood reached must agree
+	// closely; BFGS ends where its line search gives up ("line search failed"
+	// is deliberately ignored by the estimator), a point that depends on
+	// rounding at the 1e-3 level
+	tol := 1e-6
+	if method == "bfgs" {
+		// only the outcome class (and race / deadlock freedom) is judged
+		seq.extra, par.extra = nil, nil
+		c.Count("not-judged:bfgs-end-point-of-the-numeric-estimator")
+	}
+	compare(c, what, cfg, seq, par, tol)
 	inputsUnchanged(c, what, before, snapVecs([]ad.ConstVector{xv, gamma}))
 	c.Nontriv = true
 	c.Sample = map[string]interface{}{"workload": "numeric estimator", "estimator": what, "observations": n, "pool": cfg.String(), "jobs_per_executor": res.JobsPerExecutor}
